@@ -177,6 +177,7 @@ type run struct {
 	route     bool         // writes are split by lindb's broker-side routing (hash -> shard, timestamp -> family)
 	own       map[int]bool // C12 node databases: the shards this database holds (nil = all)
 	forceOnly int          // > 0: the next write carries exactly field forceOnly-1 (mid-flush writes)
+	midFlush  bool         // the write in progress arrives while a flush runs (see pointEpoch)
 	forceNew  bool         // the next write goes to series that were never written before (writes while the index is being flushed)
 	points    []point
 	flushes   int
@@ -272,6 +273,16 @@ func (r *run) genSeries() {
 	r.series[0].zone, r.series[0].app = "eu", "svc"
 }
 
+// pointEpoch: between which two flushes a point was written - the points of one storage slot that carry the same
+// number sit in one memory database. A row that arrives WHILE a flush runs may land on either side of the switch of
+// the memory databases: its points get a number of their own (no other point is known to share their place).
+func (r *run) pointEpoch() int {
+	if r.midFlush {
+		return -1 - len(r.points)
+	}
+	return r.epoch
+}
+
 func (r *run) write(op core.Op) {
 	rng := rand.New(rand.NewSource(atoi(op.S)))
 	byShard := map[int][]rows.Point{}
@@ -330,7 +341,7 @@ func (r *run) write(op core.Op) {
 			}
 			v := float64(1 + rng.Intn(40))
 			fs = append(fs, rows.Field{Name: spec.name, Type: spec.typ, Value: v})
-			r.points = append(r.points, point{series: si, field: fi, ts: ts, value: v, order: len(r.points), epoch: r.epoch})
+			r.points = append(r.points, point{series: si, field: fi, ts: ts, value: v, order: len(r.points), epoch: r.pointEpoch()})
 		}
 		var hist *rows.Hist
 		if r.c.Plan.C("fx", 0) == 1 && only < 0 && rng.Intn(4) == 0 {
@@ -340,11 +351,11 @@ func (r *run) write(op core.Op) {
 				v := float64(rng.Intn(4)) // 0: the bucket gets no value in this row
 				hist.Values = append(hist.Values, v)
 				if v > 0 {
-					r.points = append(r.points, point{series: si, field: fHistBucket + bi, ts: ts, value: v, order: len(r.points), epoch: r.epoch})
+					r.points = append(r.points, point{series: si, field: fHistBucket + bi, ts: ts, value: v, order: len(r.points), epoch: r.pointEpoch()})
 				}
 			}
 			for k, v := range []float64{hist.Min, hist.Max, hist.Sum, hist.Count} {
-				r.points = append(r.points, point{series: si, field: fHistMin + k, ts: ts, value: v, order: len(r.points), epoch: r.epoch})
+				r.points = append(r.points, point{series: si, field: fHistMin + k, ts: ts, value: v, order: len(r.points), epoch: r.pointEpoch()})
 			}
 			r.c.Sim.Probe("write-histogram")
 		}
@@ -1000,8 +1011,9 @@ func (r *run) query(op core.Op, duringFlush bool) {
 			// row of those plans carries (a group without a value of the selected field is judged strictly there)
 			r.forceOnly = 0
 		}
+		r.midFlush = true
 		r.write(core.Op{K: "write", A: 1 + atoi(op.S)%2, S: op.S + "7"})
-		r.forceOnly, r.forceNew = 0, false
+		r.forceOnly, r.forceNew, r.midFlush = 0, false, false
 		before = len(r.points)
 		c.Sim.Probe("write-during-flush")
 	}
